@@ -286,3 +286,48 @@ def schedules(c, rec):
     if nontrivial:
         rec.nontrivial([c["policy"], len(c["sensors"]), len(c["targets"]), c["pos_std"], tuple(s["cone"] for s in c["sensors"]), c["n"], hash(str(c["schedules"])) % 1000])
     rec.label("policy:" + c["policy"])
+
+
+# ------------------------------------------------------------------------------------------------
+def _two_engine_cases():
+    return st.builds(lambda t, dt, n, pol, heads: {"start": iso(t), "dt": dt, "n": n, "policy": pol, "heads": heads},
+                     eop_instants(margin_days=3), st.sampled_from([30, 60]), st.integers(2, 4),
+                     st.sampled_from(["MunkresDecision", "MyopicNaiveGreedyDecision", "AllVisibleDecision"]),
+                     st.lists(st.floats(0, 360), min_size=4, max_size=4))
+
+
+@PROP.clause("two_engines", strategy=_two_engine_cases, quick=32, thorough=640, shards=16)
+def two_engines(c, rec):
+    """two tasking engines in one scenario: after every step the pointing state of every engine's tasked sensors reflects that step's tasking"""
+    t0 = parse(c["start"])
+    dt, n = c["dt"], c["n"]
+    cov = [[1e-6, 0, 0, 0], [0, 1e-6, 0, 0], [0, 0, 1.0, 0], [0, 0, 0, 1e-6]]
+    engines = []
+    for e in (0, 1):
+        sens = [kit.ground_sensor(21001 + 10 * e, SITE[0] + 3.0 * e, SITE[1] - 2.0 * e, kind="adv_radar", slew_rate=10.0,
+                                  field_of_view={"fov_shape": "conic", "cone_angle": 40.0}, covariance=cov)]
+        tgts = [kit.eci_target(11001 + 10 * e + j, kit.circular_state_over(SITE[0] + 3.0 * e, SITE[1] - 2.0 * e, t0, R_TGT + 400.0 * j,
+                                                                           heading_deg=c["heads"][2 * e + j], offset_deg=(1.0 - j, 0.5 * j))) for j in (0, 1)]
+        engines.append(kit.engine(1 + e, sens, tgts, decision=c["policy"]))
+    cfg = kit.scenario_config(t0, t0 + timedelta(seconds=(n + 1) * dt), dt, engines, seq_filter={"alpha": 0.5},
+                              noise={"init_position_std_km": 1e-3, "init_velocity_std_km_p_sec": 1e-6, "random_seed": 4321})
+    try:
+        sc = kit.build(cfg)
+        for k in range(1, n + 1):
+            sc.stepForward()
+            for eid, eng in sc.tasking_engines.items():
+                observed = {(o.sensor_id, o.target_id) for o in eng.observations}
+                d = np.asarray(eng.decision_matrix, dtype=bool)
+                for j, sid in enumerate(eng.sensor_list):
+                    tasked = [eng.target_list[i] for i in range(d.shape[0]) if d[i, j]]
+                    if not any((sid, tid) in observed for tid in tasked):
+                        continue
+                    # the sensor produced an observation of a target it was tasked to, so it slewed in this step
+                    rec.nontrivial([c["start"], dt, k, eid, c["policy"]])
+                    tlt = float(sc.sensor_agents[sid].sensors.time_last_tasked)
+                    if tlt != float(sc.clock.time):
+                        raise Violation("time_last_tasked", f"step {k}: sensor {sid} of engine {eid} observed its tasked target but its last-tasked time is {tlt}, step time {float(sc.clock.time)} ({len(sc.tasking_engines)} engines, policy {c['policy']})")
+    except np.linalg.LinAlgError:
+        from vf.runner import Skip
+
+        raise Skip("UKF covariance not positive definite")
